@@ -140,7 +140,10 @@ func c06(r *Run) {
 	// ---- R3 poller publishes before it tries ---------------------------------------------------
 	{
 		fn := w.MustFn("(*connection).inputAck")
-		isBookAck := func(i ssa.Instruction) bool { m, ok := callOnField(i, "connection", "inputBuffer"); return ok && m == "bookAck" }
+		isBookAck := func(i ssa.Instruction) bool {
+			m, ok := callOnField(i, "connection", "inputBuffer")
+			return ok && m == "bookAck"
+		}
 		bookAcks := findIns(fn, isBookAck)
 		if len(bookAcks) == 0 {
 			r.absentf(" C06: inputAck does not call bookAck")
